@@ -12,10 +12,14 @@
   * `Line::extents` (the parallels iterator, all three stroke offsets) moves with the line;
   * hence `LineJoin::start / end / from_points` move with their points and the join KIND
     (miter / bevel / degenerate / colinear) does not depend on the position;
-  * a polyline moved with its `translate` field draws the moved rectangles.
+  * a polyline moved with its `translate` field draws the moved rectangles;
+  * a stroked polyline whose VERTICES are moved has the moved bounding box and `draw` fills the
+    moved rectangles in the same order (segment iterator, scanline intersections with merging,
+    scanline iterator), under explicit guards that only exclude `i32` saturation / sentinels.
 -/
 import EG.Lemmas.JoinsJoin
 import EG.Lemmas.JoinsPolyline
+import EG.Lemmas.JoinsPolyScan
 namespace EG.C07.Joins
 open EG EG.Joins
 
@@ -129,9 +133,65 @@ theorem polyline_translate_field_draw (t : Pt) (vs : List Pt) (w : Nat) (hw : 2 
 
 example : (2 : Nat) ≤ 4 ∧ 1 < ([⟨0, 0⟩, ⟨-6, -6⟩, ⟨-5, 3⟩] : List Pt).length := by decide
 
--- [V] a stroked polyline with MOVED VERTICES paints the shifted picture and has the shifted bounding box (ThickSegmentIter, scanline merging in ScanlineIntersections / ScanlineIterator on top of the proved join invariance): carried by correspondence + oracle only
+/-- The segments (`ThickSegmentIter`) of a polyline with moved vertices are the moved segments. -/
+theorem polyline_segments_moved_partial (vs : List Pt) (w : Nat) (d : Pt) (hn : 2 ≤ vs.length)
+    (hns : PolyNoSat w d vs) :
+    polySegments (vs.map (· + d)) w = (polySegments vs w).map (·.map (·.translate d)) :=
+  segments_moved vs w d hn hns
+
+/-- A thick segment moved by `d` paints, in row `y + d.y`, the scanline it painted in row `y`,
+moved (`SR`: both empty, or exactly shifted). Unconditional. -/
+theorem thick_segment_scanline_translate (s : ThickSegment) (d : Pt) (y : Int) :
+    SR d ((s.translate d).intersection (y + d.y)) (s.intersection y) :=
+  intersection_translate_segment s d y
+
+/-- Full-strength statement: moving the vertices of a stroked polyline moves its bounding box. -/
+def PolylineMovedVerticesBox : Prop :=
+  ∀ (vs : List Pt) (w : Nat) (d : Pt), 0 < w → 2 ≤ vs.length →
+    styledBoundingBox ⟨Pt.zero, vs.map (· + d)⟩ w = (styledBoundingBox ⟨Pt.zero, vs⟩ w).map (·.translate d)
+
+/-- The bounding box of a stroked polyline with moved vertices is the moved box. Guards:
+`PolyNoSat` (no saturating cast in a join), `BoxGuard` (the first segment's box absorbs the
+`i32::MAX / MIN` start values of the fold, i.e. its corners are `i32` values). -/
+theorem polyline_moved_vertices_box_partial (vs : List Pt) (w : Nat) (d : Pt) (hw : 0 < w)
+    (hn : 2 ≤ vs.length) (hns : PolyNoSat w d vs) (hg : BoxGuard vs w d) :
+    styledBoundingBox ⟨Pt.zero, vs.map (· + d)⟩ w = (styledBoundingBox ⟨Pt.zero, vs⟩ w).map (·.translate d) := by
+  unfold styledBoundingBox
+  rw [untranslatedBoundingBox_moved vs w d hw hn hns hg]
+  cases untranslatedBoundingBox ⟨Pt.zero, vs⟩ w with
+  | none => rfl
+  | some r =>
+    simp only [Option.map_some, Option.bind_eq_bind, Option.bind_some, pure, Option.some.injEq]
+    rw [rect_translate_zero, rect_translate_zero]
+
+/-- Full-strength statement: moving the vertices of a stroked polyline moves what `draw` paints. -/
+def PolylineMovedVerticesDraw : Prop :=
+  ∀ (vs : List Pt) (w : Nat) (d : Pt), 2 ≤ w → 2 ≤ vs.length →
+    drawStyled ⟨Pt.zero, vs.map (· + d)⟩ w = (drawStyled ⟨Pt.zero, vs⟩ w).map (PolyDraw.translate · d)
+
+/-- **`draw` of a stroked polyline (width >= 2) with moved vertices issues the moved `fill_solid`
+rectangles, in the same order.** Guards as above plus `RowsGuard` (`Rectangle::rows()` of the
+moved box does not saturate). -/
+theorem polyline_moved_vertices_draw_partial (vs : List Pt) (w : Nat) (d : Pt) (hw : 2 ≤ w)
+    (hn : 2 ≤ vs.length) (hns : PolyNoSat w d vs) (hg : BoxGuard vs w d) (hrows : RowsGuard vs w d) :
+    drawStyled ⟨Pt.zero, vs.map (· + d)⟩ w = (drawStyled ⟨Pt.zero, vs⟩ w).map (PolyDraw.translate · d) := by
+  obtain ⟨k, rfl⟩ : ∃ k, w = k + 2 := ⟨w - 2, by omega⟩
+  unfold drawStyled
+  simp only []
+  rw [drawThickRects_moved vs (k + 2) d (by omega) hn hns hg hrows]
+  cases drawThickRects ⟨Pt.zero, vs⟩ (k + 2) with
+  | none => rfl
+  | some rs =>
+    simp only [Option.map_some, Option.bind_eq_bind, Option.bind_some, ne_eq, not_true_eq_false,
+      ↓reduceIte, pure, PolyDraw.translate]
+
+-- the former C07 witness satisfies all guards: its picture moves with its vertices
+example : 2 ≤ 4 ∧ 2 ≤ ([⟨0, 0⟩, ⟨-6, -6⟩, ⟨-5, 3⟩] : List Pt).length ∧
+    PolyNoSat 4 ⟨-3, 4⟩ [⟨0, 0⟩, ⟨-6, -6⟩, ⟨-5, 3⟩] ∧ BoxGuard [⟨0, 0⟩, ⟨-6, -6⟩, ⟨-5, 3⟩] 4 ⟨-3, 4⟩ ∧
+    RowsGuard [⟨0, 0⟩, ⟨-6, -6⟩, ⟨-5, 3⟩] 4 ⟨-3, 4⟩ := by decide
+
 -- [V] pixels() of a stroked polyline moved with its translate field is the shifted pixel sequence: carried by correspondence + oracle only
 -- [V] a stroked triangle moved by d paints the shifted picture and has the shifted bounding box (sorted_clockwise, is_collapsed, ClosedThickSegmentIter, edge_intersections, fill between the strokes): carried by correspondence + oracle only
--- [V] the no-saturation guard holds for all display-scale inputs (intersection points of joins stay far inside i32): carried by correspondence + oracle only
+-- [V] the guards (PolyNoSat, BoxGuard, RowsGuard: no saturating i32 cast, corners are i32 values) hold for all display-scale inputs: carried by correspondence + oracle only
 
 end EG.C07.Joins
